@@ -194,7 +194,7 @@ pub fn run(tier: Tier, seed: u64) -> i32 {
             other => rep.broken(format!("self-test: unaligned fixed-size pair judged {:?}", other)),
         }
     }
-    let n = tier.pick(400_000, 8_000_000);
+    let n = tier.pick(400_000, 30_000_000);
     let batch = 500;
     let batches = n / batch;
     let out = par_map(batches, crate::util::ncpu(), |b| {
